@@ -34,6 +34,11 @@ def fill_cases(rnd, caps, pairs):
                     segs.append((m, gens.mode_payload(rnd, m, n, 0)))
                 rnd.shuffle(segs)
                 out.append((v, l, segs))
+        # the same bytes under each mode in turn (anything keyed by the bytes alone would show)
+        d = gens.payload(rnd, "digits", rnd.choice([1, 5, 12]))
+        for m in (1, 2, 4, 2, 1):
+            out.append((v, l, [(m, d)]))
+        out.append((v, l, [(4, d), (1, d)])); out.append((v, l, [(1, d), (4, d)]))
         # sparse symbols: many pad codewords, both parities
         for n in (0, 1, 2, 3):
             out.append((v, l, [(rnd.choice([1, 2, 4]), gens.mode_payload(rnd, 1, n, 0))] if n else []))
